@@ -1338,8 +1338,10 @@ func (e *Engine) sentinelFacts(g *ssa.Global, v Val) Val {
 	}
 	if e.prog != nil {
 		// created by errors.New / fmt.Errorf without %w of a malformed error, or a fresh object of another type
-		defer func() { recover() }()
-		e.ctx.Assume(not(e.malformedTerm(res)))
+		func() {
+			defer func() { recover() }() // package pdf may not be loaded: then malformed() is not expressible
+			e.ctx.Assume(not(e.malformedTerm(res)))
+		}()
 	}
 	return res
 }
